@@ -278,6 +278,39 @@ fn moving_root(rep: &mut Report, rng: &mut Rng, rounds: usize) {
     }
 }
 
+/// the concurrent structure driven from ONE thread against the executable interference-free instance of the
+/// interleaved model (Model/CUF.lean `cMerge` / `cFind` / `cSameSet`; theorem C17c_seq_find says these are
+/// `FindRun`s, so C17c_find / C17c_merge / C17c_same_set apply to them)
+fn concurrent_single_thread(rep: &mut Report, rng: &mut Rng, n: usize) {
+    let mut lines: Vec<String> = vec![]; let mut want: Vec<(usize, String, String)> = vec![];
+    for ci in 0..n {
+        let ids = [4usize, 12, 60, 300][rng.below(4)];
+        let cap = [1usize, 8, 64][rng.below(3)];
+        let uf = concurrent::UnionFind::<Id>::with_capacity(cap);
+        lines.push("uf new".into()); want.push((ci, "uf new".into(), "ok".into()));
+        let len = 5 + rng.below(60);
+        let mut ops = vec![];
+        for _ in 0..len {
+            let (a, b) = (rng.below(ids) as u32, rng.below(ids) as u32);
+            let (line, got) = match rng.below(4) {
+                0 | 1 => { let (p, c) = uf.union(Id::new(a), Id::new(b)); (format!("uf cmerge {a} {b}"), format!("{} {}", p.rep(), c.rep())) }
+                2 => (format!("uf cfind {a}"), format!("{}", uf.find(Id::new(a)).rep())),
+                _ => (format!("uf csame {a} {b}"), format!("{}", uf.same_set(Id::new(a), Id::new(b)))),
+            };
+            ops.push(line.clone()); lines.push(line.clone()); want.push((ci, line, got));
+        }
+        rep.evaluations += 1; rep.traces_vs_model += 1;
+        if ops.iter().filter(|o| o.starts_with("uf cmerge")).count() >= 2 { rep.note_nontrivial(&ops); }
+    }
+    match run_driver(&lines) {
+        Err(e) => rep.violate("correspondence", "driver-failure", e, json!({})),
+        Ok(m) => { let mut reported = std::collections::HashSet::new();
+            for (i, (ci, line, got)) in want.iter().enumerate() { if &m[i] != got && reported.insert(*ci) {
+                let start = want.iter().position(|w| w.0 == *ci).unwrap();
+                rep.violate("correspondence", "uf-conc-seq-model-mismatch", format!("single-threaded ConcurrentUnionFind vs the interference-free instance of the interleaved model: `{line}` returns `{got}`, the model `{}`", m[i]), json!({"ops": want[start..=i].iter().map(|w| w.1.clone()).collect::<Vec<_>>()})); } } }
+    }
+}
+
 pub fn run(ctx: &Ctx) -> Report {
     let mut rep = Report::new("C17", "sequential: every op sequence over ids 0..3 up to the exhaustive length, plus seeded random sequences (ids up to 200, length up to 300), each compared op-by-op with the Lean model and with the partition specification; a case is non-trivial when it contains >= 2 unions of distinct ids (distinct by op list). concurrent: multi-thread histories with growth beyond capacity, non-trivial when two calls overlap in time");
     let mut rng = Rng::new(ctx.seed);
@@ -285,5 +318,6 @@ pub fn run(ctx: &Ctx) -> Report {
     random_seqs(&mut rep, &mut rng, ctx.n(300, 5000));
     concurrent_stress(&mut rep, &mut rng, ctx.n(40, 1500));
     moving_root(&mut rep, &mut rng, ctx.n(30, 600));
+    concurrent_single_thread(&mut rep, &mut rng, ctx.n(200, 4000));
     rep
 }
